@@ -16,7 +16,7 @@ FUNCTIONS = ['phylib/utils/event.py:' + f for f in (
 BOUNDS = {
     'quick': {'emitter_history': '3 (full alphabet) + 4 (narrowed alphabet)', 'reporter_history': 4,
               'unbounded': ['all integer arguments of the reporter', 'emitted arguments (opaque)']},
-    'thorough': {'emitter_history': '4 (full alphabet) + 5 (narrowed alphabet)', 'reporter_history': 6,
+    'thorough': {'emitter_history': '3 (full alphabet) + 4 and 5 (narrowed alphabet)', 'reporter_history': 5,
                  'unbounded': ['all integer arguments of the reporter', 'emitted arguments (opaque)']},
 }
 ASSUMPTIONS = [
@@ -40,7 +40,7 @@ WITNESS_CAP = {'quick': 40, 'thorough': 100}
 def configs(tier):
     quick = tier == 'quick'
     out = []
-    H = 3 if quick else 4
+    H = 3
     # the first operation is fixed per config (parallelism); the last one is always an emit
     for h in range(1, H + 1):
         if h == 1:
@@ -48,11 +48,17 @@ def configs(tier):
         else:
             for first in EM_NONEMIT:
                 out.append({'kind': 'emitter', 'h': h, 'first': first, 'family': 'full'})
-    # one step deeper on a narrowed alphabet: two explicit-event connects, any third operation, one event
-    for first in EM_NONEMIT:
-        if EM_OPS[first][0] == 'connect' and EM_OPS[first][1][1] == 'event':
-            out.append({'kind': 'emitter', 'h': H + 1, 'first': first, 'family': 'narrow'})
-    R = 4 if quick else 6
+    # deeper on a narrowed alphabet: two explicit-event connects, any further operations, one event
+    for hh in ((H + 1,) if quick else (H + 1, H + 2)):
+        for first in EM_NONEMIT:
+            if EM_OPS[first][0] == 'connect' and EM_OPS[first][1][1] == 'event':
+                if hh <= H + 1:
+                    out.append({'kind': 'emitter', 'h': hh, 'first': first, 'family': 'narrow'})
+                    continue
+                for second in EM_NONEMIT:
+                    if EM_OPS[second][0] == 'connect' and EM_OPS[second][1][1] == 'event':
+                        out.append({'kind': 'emitter', 'h': hh, 'first': first, 'second': second, 'family': 'narrow'})
+    R = 4 if quick else 5
     for h in range(1, R + 1):
         if h <= 2:
             out.append({'kind': 'reporter', 'h': h, 'first': None})
@@ -270,6 +276,8 @@ def run_config(cfg, e):
                     oi = e.choice('op%d' % i, EM_EMITS)
                 elif i == 0 and cfg['first'] is not None:
                     oi = cfg['first']
+                elif i == 1 and cfg.get('second') is not None:
+                    oi = cfg['second']
                 else:
                     # intermediate emits do not change the emitter state (callbacks are not
                     # re-entrant; the silence flag is checked right after every emit)
